@@ -130,7 +130,18 @@ def check_kernel_units(ctx):
     # the kernel combines them with packed columns in the table units: P / P0, sigma_K0, max_K vs Lambda (data unit squared)
     fnm = K.methods["batch_marginal_ln_likelihood"]
     lam = [s for s in A.walk_local(fnm) if isinstance(s, ast.Assign) and canon(s.targets[0]) == canon(parse("self.Lambda[0]"))]
-    ok = bool(lam) and "P / self.P0" in A.unparse(lam[0].value)
+    ok = False
+    if lam:
+        from ..norm import rat
+        try:
+            r = rat(lam[0].value).expanded()
+            exps = {}
+            for mono in list(r.n.t) + list(r.d.t):
+                for a, e in mono:
+                    exps[a] = e
+            ok = "P" in exps and "self.P0" in exps and exps["P"] == -exps["self.P0"]
+        except Exception:
+            ok = False
     ctx.check(R, lam[0] if lam else fnm, "kernel divides the packed period (day) by P0", ok, "Lambda[0] rule does not use P / P0", key="P/P0", nontrivial=False)
 
 
